@@ -196,8 +196,13 @@ pub fn check(sc: &Scenario, out: &RunOutput) -> OracleResult {
             // (a probe is cut from bytes the application has buffered beyond what is in flight:
             // a transmit buffer that cannot hold a segment in flight plus a larger probe never
             // gets to probe again - a limit of the configuration, not of the discovery)
-            let o = &sc.nodes[n].opts;
-            let ring_ok = o.tx_init().max(o.tx_max()) >= 2 * fit + floor;
+            // (the capacity the ring actually reached: it grows only under conditions of its own)
+            let ring_cap = h
+                .probes()
+                .filter_map(|(_, p)| if let librqbit_utp::verif::ProbeEvent::ConnPoll(s) = p { (s.key.local == v.me).then_some(s.tx_ring_cap) } else { None })
+                .max()
+                .unwrap_or(0);
+            let ring_ok = ring_cap >= 2 * fit + floor;
             if n_seg >= 200 && ring_ok {
                 let tail_max = first_tx_sizes[n_seg - 40..].iter().filter(|(_, probe)| !*probe).map(|(l, _)| *l).max().unwrap_or(0);
                 if tail_max != fit {
